@@ -37,6 +37,16 @@ def _implies_unprocessed(t, pol: bool, K) -> bool:
         return _implies_unprocessed(t[2][0], pol, K)
     if _is_membership(t, K):
         return not pol
+    # the predicate of the hiding dictionary written out (single-expression `exists`): `K in <processed_nodes>` (or its data) is
+    # the membership itself; `K in <processed_nodes>.<set of hidden keys>` being true means the mark is hidden (re-armed)
+    if t[0] == 'cmp' and t[1] == 'In' and len(t) > 3 and t[2] == K:
+        cont = t[3]
+        if isinstance(cont, tuple) and cont and cont[0] == 'attr':
+            if cont[2] == 'processed_nodes':
+                return not pol
+            inner = cont[1]
+            if isinstance(inner, tuple) and inner and inner[0] == 'attr' and inner[2] == 'processed_nodes':
+                return (not pol) if cont[2] == 'data' else pol
     return False
 
 
